@@ -1238,7 +1238,7 @@ func (repo *Repository) load(ctx context.Context, depth int) error {
 }
 
 func (repo *Repository) loadBranchHashHeights(ctx context.Context, branch *Branch) {
-	height := branch.parentHeight + 1
+	height := branch.PrunedLowestHeight() // the branch might have been pruned while loading
 	for _, headerData := range branch.headers {
 		repo.heights[headerData.Hash] = height
 		height++
